@@ -28,7 +28,7 @@ def run(ctx):
         "scope: the scheme of the request = X-Forwarded-Proto if the client (a proxy in front) sent it, else that of the connection; a redirect= value outside 300..399 must leave an ordinary route to the target",
         "requests to the same redirect target are issued one after the other (the Location cached on the shared target under simultaneous requests is checked by C06)",
     ]
-    base.run_prop(ctx, "C13", ctx.pick(8, 1),
+    base.run_prop(ctx, "C13", ctx.pick(4, 1),
                   "one case per finished pipeline run TLC enumerated (quick: the slice selected by the seed plus all bad-code and self-redirect layouts; thorough: the full product); non-trivial = answered by a redirect route, or a redirect passed over",
                   _pred, _corrupt, "location-path")
 
